@@ -49,6 +49,9 @@ def _monotonic_factorization(arr_list, total_len):
     arr_num = 0
     arr = arr_list[arr_num]
 
+    if arr[0] != arr[0]:  # null (NaN / NaT) key: no monotonic prefix
+        return 0, codes, labels[:0]
+
     labels[0] = arr[0]
     n_labels = 1
     codes[0] = 0
@@ -63,6 +66,8 @@ def _monotonic_factorization(arr_list, total_len):
             cur_arr_pos = 0
 
         x = arr[cur_arr_pos]
+        if x != x:  # null (NaN / NaT) key ends the monotonic prefix
+            return i, codes, labels[:n_labels]
         if x < prev:
             return i, codes, labels[:n_labels]
         elif x > prev:
